@@ -57,7 +57,7 @@ pub fn run(ctx: &mut Ctx) {
     let rs = v_refspec();
     assert_spec_matches::<V>(&rs);
     let n = ctx.tier.pick(5, 6);
-    ctx.meta("rule", "cases: byte streams that begin at a root element and that the strict iterator reads to the end without error, from (a) real writer outputs over the tree x option space, (b) RefEncoder outputs with non-canonical encodings (zero-length and zero/sign-padded integers, 4-byte floats, 2- and 8-byte size fields, unknown-size masters closed by a following element, an ancestor's end or end of input), (c) every Σ string up to length n and every single mutation of the documents; each also with all masters buffered (Full items). Oracle: every emitted item, written back one write() per item, is accepted; into_inner succeeds; a second strict read yields the identical normalised item sequence. Non-trivial: streams whose re-encoding differs from the input bytes.");
+    ctx.meta("rule", "cases: byte streams that begin at a root element and that the strict iterator reads to the end without error, from (a) real writer outputs over the tree x option space, (b) RefEncoder outputs with non-canonical encodings (zero-length and zero/sign-padded integers, 4-byte floats, 2- and 8-byte size fields, unknown-size masters closed by a following element, an ancestor's end or end of input), (b2) size-boundary documents (124..128, 16379..16384 bytes) as reference encoding and as writer output, (c) every Σ string up to length n and every single mutation of the documents; each also with all masters buffered (Full items). Oracle: every emitted item, written back one write() per item, is accepted; into_inner succeeds; a second strict read yields the identical normalised item sequence. Non-trivial: streams whose re-encoding differs from the input bytes.");
     ctx.meta("bounds", &format!("Σ* length <= {}; documents <= {} elements with <= 2 encoding deviations", n, ctx.tier.pick(4, 5)));
     ctx.meta("assumptions", "64 KiB tag-size limit on the reader (mutated size fields)");
     for c in ["accepted_streams", "re-encoded_bytes_differ(non-canonical input)", "writer_outputs", "size_boundary_docs"] {
